@@ -18,10 +18,10 @@ from common import Report, Violation, RLV, NCPU, parallel_map, h, run_sentinels,
 from sqlcase import RL, ms
 
 
-def shard(args):
+def shard(args, driver="ops"):
     seed, n, sh = args
     try:
-        p = subprocess.run([RLV, "kern", "ops", str(seed), str(n), str(sh)], stdout=subprocess.PIPE,
+        p = subprocess.run([RLV, "kern", driver, str(seed), str(n), str(sh)], stdout=subprocess.PIPE,
                            stderr=subprocess.PIPE, text=True, timeout=1800)
     except subprocess.TimeoutExpired:
         return dict(error="watchdog")
@@ -31,6 +31,10 @@ def shard(args):
         return json.loads(p.stdout.strip().splitlines()[-1])
     except Exception as e:
         return dict(error=f"bad output: {e}")
+
+
+def iso_shard(args):
+    return shard(args, "iso")
 
 
 INTS = ["0", "1", "-1", "2", "7", "-7", "100", "2147483647", "-2147483647", "46341", "65536", "9223372036854775807", "NULL"]
@@ -322,6 +326,31 @@ def run(tier, seed):
                 rep.sample(s, limit=3)
             for v in r["violations"]:
                 rep.add_violation(Violation("kernel:" + v["signature"], v["what"], dict(kernel=True)))
+    # row-isolation leg: every kernel (all operators x all type pairs, the cast matrix, LIKE, EXTRACT, SUBSTRING,
+    # REPLACE, REPEAT, CASE, vector distances): value of row i in a batch == value of row i alone; a batch fails
+    # exactly when some row alone fails
+    iso_per = 1500 if tier == "quick" else 60000
+    iso = dict(cases=0, rows=0, ok=0, failing=0, combos={})
+    with ThreadPoolExecutor(max_workers=NCPU) as ex:
+        for r in ex.map(iso_shard, [(seed, iso_per, s) for s in range(shards)]):
+            if "error" in r:
+                rep.inc("iso leg: " + r["error"][:60])
+                continue
+            iso["cases"] += r["cases"]
+            iso["rows"] += r["row_evaluations"]
+            iso["ok"] += r["batches_ok"]
+            iso["failing"] += r["batches_failing"]
+            for k, v in r["combos"].items():
+                iso["combos"][k] = iso["combos"].get(k, 0) + v
+            for s_ in r["samples"]:
+                rep.sample(dict(iso=s_), limit=9)
+            for v in r["violations"]:
+                rep.add_violation(Violation("kernel:" + v["signature"], v["what"], dict(kernel=True, driver="iso", seed=v["seed"], shard=v["shard"], index=v["index"], case=v["case"])))
+    rep.coverage.update(iso_batches=iso["cases"], iso_rows_compared_with_the_row_alone=iso["rows"], iso_batches_returning_values=iso["ok"],
+                        iso_batches_failing_as_a_whole=iso["failing"], iso_kernel_type_combinations=len(iso["combos"]),
+                        iso_kernels=sorted({k.split("(")[0] for k in iso["combos"]}))
+    rep.floor("row-isolation: kernel/type combinations returning values", len(iso["combos"]), 120)
+    rep.floor("row-isolation: rows compared with the row alone", iso["rows"], iso_per * shards * 20)
     tot = dict(ok=0, fail=0)
     folds = set()
     for res in parallel_map(fold_case, [(seed, i, nfold) for i in range(16)]):
@@ -349,8 +378,8 @@ def run(tier, seed):
         for v in res["violations"]:
             rep.add_violation(Violation(v["signature"], v["what"], dict(sql=v["sql"], signature=v["signature"], predicate=True)))
     run_sentinels(rep, sentinel)
-    rep.evaluations += rows
-    rep.distinct = len(combos) + len(folds) + len(preds)
+    rep.evaluations += rows + iso["rows"]
+    rep.distinct = len(combos) + len(folds) + len(preds) + len(iso["combos"])
     rep.coverage.update(kernel_cases=cases, kernel_row_evaluations=rows, operator_type_combinations=len(combos),
                         constant_expressions_equal_on_both_sides=tot["ok"], constant_expressions_failing_on_both_sides=tot["fail"])
     rep.floor("operator/type combinations judged", len(combos), 150)
@@ -370,6 +399,12 @@ def run(tier, seed):
 def replay(path):
     w = json.load(open(path))["witness"]
     if w.get("kernel"):
+        if w.get("driver") == "iso":
+            p = subprocess.run([RLV, "kern", "iso", str(w["seed"]), str(w["index"] + 1), str(w["shard"])], stdout=subprocess.PIPE, text=True)
+            out = json.loads(p.stdout.strip().splitlines()[-1])
+            for v in out["violations"]:
+                print("VIOLATION-REPRO", v["signature"], v["what"])
+            return 1 if out["violations"] else 0
         print("kernel violations are reproduced by: rlv kern ops <seed> <n> <shard> (deterministic)")
         return 1
     out = sentinel(w)
